@@ -1,6 +1,332 @@
-import Hive.Model.C12bBytesFilter
-import Hive.Model.C12bWalker
-import Hive.Model.C12bTimeHeap
-import Hive.Model.C12bIndexedStorage
-import Hive.Model.C12bOnChangeMap
-import Hive.Model.C12bSubMgr
+import Hive.Proofs.C12bBytesFilter
+import Hive.Proofs.C12bWalker
+import Hive.Proofs.C12bTimeHeap
+import Hive.Proofs.C12bIndexedStorage
+import Hive.Proofs.C12bOnChangeMap
+import Hive.Proofs.C12bSubMgrMirror
+/-!
+# C12 (part B) — BytesFilter, Walker, TimeHeap, IndexedStorage, OnChangeMap, SubscriptionManager
+are equivalent to their abstract models
+
+Property theorems only.  Every theorem quantifies over **every operation history** (`ops : List Op`)
+and **every option setting** (filter size, revisit flag, callback presence and failures, subscription
+limit).  Models: `Hive/Model/C12b*.lean` (the Go code after the four `fix:` commits recorded in
+`known_findings/C12b.json`); helper lemmas: `Hive/Proofs/C12b*.lean`.
+-/
+namespace Hive.C12b
+
+/-! ## BytesFilter — remembers exactly the last N distinct identifiers -/
+
+/-- Observational equivalence with the abstract model "the last `size` accepted identifiers": the
+answers of every history coincide, for every size (size 0 included: both sides panic on `Add`). -/
+theorem C12_bytesfilter_refines (size : Nat) (ops : List BF.Op) :
+    (BF.run (BF.init size) ops).2 = (BF.specRun { size := size, recent := [] } ops).2 :=
+  (BF.run_refines (BF.init size) ops (BF.inv_init size)).1
+
+/-- Slice + set consistency, and the content of the filter in closed form: after every history
+the slice holds exactly the last `size` identifiers that were accepted (for which `Add` answered
+true), without duplicates, and the set — hence `Contains` — agrees with it. -/
+theorem C12_bytesfilter_last_n (size : Nat) (ops : List BF.Op) :
+    let s := BF.final (BF.init size) ops
+    s.ids = BF.lastN size s.accepted ∧ s.ids.Nodup ∧ s.ids.length ≤ size ∧
+      (∀ x, x ∈ s.known ↔ x ∈ s.ids) ∧
+      ∀ x, (BF.step s (.has x)).2 = .bool (decide (x ∈ BF.lastN size s.accepted)) := by
+  intro s
+  have h : BF.Inv s := BF.inv_final _ ops (BF.inv_init size)
+  have hsz : s.size = size := by
+    show (BF.final (BF.init size) ops).size = size
+    generalize hst : BF.init size = st
+    have h0 : st.size = size := by rw [← hst]; rfl
+    clear hst h
+    induction ops generalizing st with
+    | nil => exact h0
+    | cons op ops ih => exact ih _ (by rw [BF.step_size]; exact h0)
+  refine ⟨hsz ▸ h.last, h.nodup, hsz ▸ h.bound, h.known, ?_⟩
+  intro x
+  simp only [BF.step]
+  congr 1
+  have := h.known x
+  have hl := h.last
+  rw [hsz] at hl
+  rw [← hl]
+  exact decide_eq_decide.2 this
+
+/-- The ghost list `accepted` is what the answers say: an identifier is recorded exactly when
+`Add` answers true; `Contains` records nothing. -/
+theorem C12_bytesfilter_accepted (s : BF.St) (x : Nat) :
+    (BF.step s (.add x)).1.accepted = s.accepted ++ (if (BF.step s (.add x)).2 = .bool true then [x] else []) ∧
+    (BF.step s (.has x)).1 = s := by
+  refine ⟨?_, rfl⟩
+  simp only [BF.step]
+  split
+  · simp
+  · split
+    · split <;> simp
+    · simp
+
+/-- Non-vacuity: size 2, the third distinct identifier evicts the first. -/
+example : (BF.run (BF.init 2) [.add 1, .add 2, .add 1, .add 3, .has 1, .has 2, .add 1, .has 2]).2 =
+    [.bool true, .bool true, .bool false, .bool true, .bool false, .bool true, .bool true, .bool false] := by
+  decide
+
+/-! ## Walker — every pushed element once, in queue order, with PushFront semantics -/
+
+/-- Observational equivalence with the abstract model (a deque of pending elements plus the *set*
+of elements seen), for both settings of the revisit flag. -/
+theorem C12_walker_refines (revisit : Bool) (ops : List WK.Op) :
+    (WK.run (WK.init revisit) ops).2 =
+      (WK.specRun { revisit := revisit, pending := [], seen := fun _ => false, stopped := false } ops).2 := by
+  have h := (WK.run_refines (WK.init revisit) ops).1
+  have e : WK.abs (WK.init revisit) =
+      { revisit := revisit, pending := [], seen := fun _ => false, stopped := false } := by
+    simp [WK.abs, WK.init]
+  rw [e] at h; exact h
+
+/-- Without revisiting: after every history, every element offered (to Push, PushAll or PushFront)
+since the last Reset has been yielded by `Next` or is still queued — exactly once. -/
+theorem C12_walker_every_element_once (ops : List WK.Op) :
+    let s := WK.final (WK.init false) ops
+    (s.yielded ++ s.queue).Nodup ∧ ∀ x, x ∈ s.yielded ++ s.queue ↔ x ∈ s.offered := by
+  intro s
+  have h : WK.InvOnce s := WK.invOnce_final _ ops WK.invOnce_init
+  exact ⟨h.nodup, fun x => (h.cover x).trans (h.offered x)⟩
+
+/-- With revisiting: every offer is yielded or still queued, as often as it was offered. -/
+theorem C12_walker_revisit_yields_all (ops : List WK.Op) :
+    let s := WK.final (WK.init true) ops
+    (s.yielded ++ s.queue).Perm s.offered :=
+  (WK.invAll_final _ ops WK.invAll_init).2
+
+/-- Queue order: `Next` hands out the front of the queue and nothing else changes; `HasNext` is
+"queue non-empty and not stopped". -/
+theorem C12_walker_next_is_front (s : WK.St) (x : Nat) (q : List Nat) (h : s.queue = x :: q) :
+    (WK.step s .next).2 = .elem x ∧ (WK.step s .next).1.queue = q ∧
+      (WK.step s .next).1.yielded = s.yielded ++ [x] ∧ (WK.step s .next).1.pushed = s.pushed := by
+  simp [WK.step, h]
+
+example : ∃ s : WK.St, ∃ x q, s.queue = x :: q :=
+  ⟨(WK.step (WK.init false) (.pushAll [4, 5])).1, 4, [5], by decide⟩
+
+/-- Push / PushFront semantics in closed form (no revisiting): `PushAll xs` appends the new
+elements of `xs` (first occurrences, argument order) to the back, `PushFront xs` puts them in front
+one after the other — so they come out in reverse argument order — and *every* argument is
+examined (the unrepaired code stopped at the first repeat). -/
+theorem C12_walker_push_semantics (s : WK.St) (xs : List Nat) (hr : s.revisit = false) :
+    (WK.step s (.pushFront xs)).1.queue = (WK.fresh s.pushed xs).reverse ++ s.queue ∧
+    (WK.step s (.pushFront xs)).1.pushed = s.pushed ++ WK.fresh s.pushed xs ∧
+    (WK.step s (.pushAll xs)).1.queue = s.queue ++ WK.fresh s.pushed xs ∧
+    (WK.step s (.pushAll xs)).1.pushed = s.pushed ++ WK.fresh s.pushed xs := by
+  obtain ⟨h1, h2⟩ := WK.pushFront_queue s xs hr
+  obtain ⟨h3, h4⟩ := WK.push_queue s xs hr
+  exact ⟨h1, h2, h3, h4⟩
+
+example : (WK.step (WK.init false) (.push 1)).1.revisit = false := rfl
+
+/-- Non-vacuity / regression: `Push(1); PushFront(1,2,3)` then draining yields 3, 2, 1. -/
+example : (WK.run (WK.init false) [.push 1, .pushFront [1, 2, 3], .next, .next, .next, .next, .pushed 3]).2 =
+    [.ok, .ok, .elem 3, .elem 2, .elem 1, .panic, .bool true] := by
+  decide
+
+/-- Witness about the model of the **unrepaired** `PushFront` (returns at the first repeat):
+`Push(1); PushFront(1,2,3)` leaves 2 and 3 neither queued nor marked as pushed. -/
+theorem C12_walker_old_pushfront_witness :
+    let s := WK.pushFrontOld (WK.step (WK.init false) (.push 1)).1 [1, 2, 3]
+    s.queue = [1] ∧ s.pushed = [1] := by
+  decide
+
+/-! ## TimeHeap — the windowed sum of what was added and not cleared -/
+
+/-- Observational equivalence with the abstract model (list of live entries over an explicit
+clock; a query drops what is outside its window and answers the sum of the rest), for every
+history of `tick`, `Add`, `Clear` and `AveragePerSecond` with arbitrary windows.  The
+implementation-level model keeps a `container/heap` array; the proof goes through the heap order
+(`heap.Pop` returns a minimal timestamp) and the permutation invariance of `up`/`down`. -/
+theorem C12_timeheap_refines (ops : List TH.Op) :
+    (TH.run TH.init ops).2 = (TH.specRun TH.specInit ops).2 :=
+  (TH.run_refines TH.init TH.specInit ops TH.rel_init).1
+
+/-- The running total is the sum of the counts currently in the heap, in every reachable state
+(this is what the unrepaired `Clear` broke). -/
+theorem C12_timeheap_total_is_heap_sum (ops : List TH.Op) :
+    (TH.final TH.init ops).total = TH.counts (TH.final TH.init ops).heap :=
+  TH.total_final TH.init ops rfl
+
+/-- The statement of the property in closed form, for one fixed window `h` (how the type is used):
+after any history whose queries all use `h`, `AveragePerSecond(h)` reports the sum of the counts of
+exactly those entries that were added since the last `Clear` and are inside the window now. -/
+theorem C12_timeheap_fixed_window (h : Nat) (ops : List TH.Op) (hf : TH.FixedWindow h ops) :
+    (TH.step (TH.final TH.init ops) (.avg h)).2 =
+      .total (TH.counts ((TH.addedSince ops).2.filter (TH.inWindow (TH.addedSince ops).1 h))) h := by
+  obtain ⟨_, hrel⟩ := TH.run_refines TH.init TH.specInit ops TH.rel_init
+  rw [TH.run_fst] at hrel
+  obtain ⟨h1, _⟩ := TH.step_refines hrel (.avg h)
+  rw [h1]
+  obtain ⟨f1, f2⟩ := TH.spec_fixed h ops TH.specInit (0, []) hf rfl rfl
+  show TH.Out.total (TH.counts ((TH.specRun TH.specInit ops).1.live.filter
+    (TH.inWindow (TH.specRun TH.specInit ops).1.now h))) h = _
+  rw [f2]; rfl
+
+/-- Non-vacuity of `FixedWindow`, and a concrete run: entries age out, `Clear` forgets. -/
+example : TH.FixedWindow 3 [.add 5, .tick 1, .add 2, .avg 3, .tick 1, .avg 3, .clear, .avg 3] := by
+  intro op hop h' e; subst e; simp at hop; omega
+
+example : (TH.run TH.init [.add 5, .tick 1, .add 2, .avg 3, .tick 1, .avg 3, .add 1, .clear, .avg 3, .avg 0]).2 =
+    [.ok, .ok, .ok, .total 7 3, .ok, .total 2 3, .ok, .ok, .total 0 3, .total 0 0] := by
+  rw [C12_timeheap_refines]; decide
+
+/-- Witness about the model of the **unrepaired** `Clear` (heap emptied, total kept):
+`Add(5); Clear(); AveragePerSecond` still reports 5. -/
+theorem C12_timeheap_old_clear_witness :
+    (TH.step (TH.clearOld (TH.step TH.init (.add 5)).1) (.avg 3)).2 = .total 5 3 := by
+  decide
+
+/-! ## IndexedStorage — a keyed store of storages -/
+
+/-- Observational equivalence with the abstract model (a partial function from indexes to
+storage handles, storages being partial functions): all scalar answers of every history coincide. -/
+theorem C12_indexedstorage_refines (ops : List IX.Op) :
+    ((IX.run IX.init ops).2.map IX.scalar) = (IX.specRun IX.specInit ops).2 := by
+  have h := (IX.run_refines IX.init ops).1
+  have e : IX.abs IX.init = IX.specInit := by
+    simp [IX.abs, IX.init, IX.specInit, AMap.get]
+  rw [e] at h; exact h
+
+/-- The callback log of `ForEach` and the result of `Clear` mirror the store: in every reachable
+state they enumerate exactly the cached (index, storage, contents) triples, each index once, and
+after `Clear` nothing is left. -/
+theorem C12_indexedstorage_iteration_mirrors (ops : List IX.Op) :
+    let s := IX.final IX.init ops
+    (IX.step s .forEach).2 = .pairs (IX.listing s) ∧ (IX.step s .clear).2 = .pairs (IX.listing s) ∧
+    IX.listing (IX.step s .clear).1 = [] ∧
+    ((IX.listing s).map (·.1)).Nodup ∧
+    ∀ i h c, (i, h, c) ∈ IX.listing s ↔ s.cache.get i = some h ∧ c = IX.contents s h := by
+  intro s
+  have hv : IX.Inv s := IX.inv_final _ ops IX.inv_init
+  refine ⟨rfl, rfl, rfl, ?_, fun i h c => IX.mem_listing s hv.cacheNodup i h c⟩
+  rw [IX.listing_indexes]; exact hv.cacheNodup
+
+/-- No dangling and no shared storages: every cached handle was allocated and is backed by a
+storage, and two different indexes never share one. -/
+theorem C12_indexedstorage_no_aliasing (ops : List IX.Op) :
+    let s := IX.final IX.init ops
+    (∀ i h, s.cache.get i = some h → h < s.nextId ∧ (s.stores.get h).isSome = true) ∧
+    ∀ i j h, s.cache.get i = some h → s.cache.get j = some h → i = j := by
+  intro s
+  have hv : IX.Inv s := IX.inv_final _ ops IX.inv_init
+  exact ⟨hv.live, hv.inj⟩
+
+example : (IX.run IX.init [.get 1 false, .get 1 true, .sset 0 2 7, .get 2 true, .evict 1, .sset 0 3 1, .sget 0 2,
+    .get 1 true, .forEach, .clear, .forEach]).2 =
+    [.nil, .handle 0, .ok, .handle 1, .handle 0, .ok, .val (some 7), .handle 2,
+     .pairs [(2, 1, []), (1, 2, [])], .pairs [(2, 1, []), (1, 2, [])], .pairs []] := by
+  decide
+
+/-! ## OnChangeMap — a keyed store whose callbacks mirror every change -/
+
+/-- Keyed-store behaviour, for every callback configuration and every pattern of callback
+failures: the stored contents, the returned copies and the store-level answers
+(exists / missing) are those of a plain map; callbacks (and their failures) never change what is
+stored. -/
+theorem C12_onchangemap_keyed_store (s : OC.St) (op : OC.Op) :
+    OC.abs (OC.step s op).1 = (OC.specStep (OC.abs s) op).1 ∧
+    (OC.step s op).2.item = (OC.specStep (OC.abs s) op).2.2 ∧
+    (∀ r, (OC.specStep (OC.abs s) op).2.1 = some r → (OC.step s op).2.res = r) :=
+  OC.step_store s op
+
+/-- The changed-callback always receives the contents of the map as they are after the change. -/
+theorem C12_onchangemap_changed_snapshot (s : OC.St) (op : OC.Op) (snap : AMap Nat)
+    (h : OC.Event.changed snap ∈ (OC.step s op).2.events) : snap = (OC.step s op).1.m :=
+  OC.step_snapshot s op snap h
+
+example : OC.Event.changed [(1, 5)] ∈
+    (OC.step (OC.step (OC.init true true true true) (.enable true)).1 (.add 1 5 false false)).2.events := by
+  decide
+
+/-- Callbacks mirror every change: with the callbacks switched on and all item callbacks installed,
+over every history of honest requests (callbacks stay on, the changed-callback does not fail, a
+mutating modify reports) a listener that folds the added / modified / deleted callbacks into a
+replica ends with exactly the contents of the map — whatever the item callbacks themselves return. -/
+theorem C12_onchangemap_callbacks_mirror (c : Bool) (ops : List OC.Op) (ho : ∀ op ∈ ops, op.honest) :
+    let s0 := (OC.step (OC.init c true true true) (.enable true)).1
+    OC.replay (fun _ => none) (OC.allEvents s0 ops) = OC.abs (OC.final s0 ops) := by
+  intro s0
+  have hr : OC.Reporting s0 := ⟨rfl, rfl, rfl, rfl⟩
+  have := OC.mirror_run s0 ops hr ho
+  have e : OC.abs s0 = fun _ => none := by
+    funext k; simp [s0, OC.abs, OC.step, OC.init, AMap.get]
+  rw [e] at this; exact this
+
+example : ∀ op ∈ [OC.Op.add 1 5 false true, .modify 1 7 true true false false, .modify 1 9 false false false true,
+    .delete 1 false false, .exec true, .get 1, .all], op.honest := by
+  intro op h
+  simp at h
+  rcases h with h | h | h | h | h | h | h <;> subst h <;> simp [OC.Op.honest]
+
+/-! ## SubscriptionManager — topic counts are the sum of the clients' subscriptions; events mirror state -/
+
+/-- `topics[t] = Σ_c subs[c][t]` in every reachable state, for every subscription limit and every
+history of connect / disconnect / subscribe / unsubscribe (same client ids reconnecting, forced
+drops at the limit included); all stored counts are positive and no map has duplicate keys. -/
+theorem C12_submgr_topic_count_is_sum (limit : Nat) (ops : List SM.Op) :
+    let s := SM.final (SM.init limit) ops
+    (∀ t, SM.topicCount s t = SM.sumOver s.subs t) ∧
+    (∀ t n, s.topics.get t = some n → 0 < n) ∧
+    (∀ c m t n, s.subs.get c = some m → m.get t = some n → 0 < n) ∧
+    s.subs.keys.Nodup ∧ s.topics.keys.Nodup := by
+  intro s
+  have hv : SM.Inv s := SM.inv_final _ ops (SM.inv_init limit)
+  exact ⟨hv.sum, hv.tpos, hv.pos, hv.subsNodup, hv.topicsNodup⟩
+
+/-- Observable form: a topic has subscribers exactly when some client is subscribed to it. -/
+theorem C12_submgr_topic_iff_client (limit : Nat) (ops : List SM.Op) (t : Nat) :
+    let s := SM.final (SM.init limit) ops
+    (SM.step s (.hasTopic t)).2.ret = some true ↔ ∃ c, 0 < SM.cnt s c t := by
+  intro s
+  have hv : SM.Inv s := SM.inv_final _ ops (SM.inv_init limit)
+  rw [← SM.has_topic_iff hv t]
+  simp [SM.step]
+
+/-- Events mirror every state change: a listener that folds *all* emitted events of a history
+(connected / disconnected, subscribed / unsubscribed, topic added / removed — the batches of a
+reconnect, a disconnect and a forced drop included) reconstructs exactly the set of connected
+clients, every client's subscription count per topic and the set of topics with subscribers. -/
+theorem C12_submgr_events_mirror (limit : Nat) (ops : List SM.Op) :
+    let s := SM.final (SM.init limit) ops
+    let r := SM.replay SM.Rep.empty (SM.allEvents (SM.init limit) ops)
+    (∀ c, r.conn c = s.subs.has c) ∧ (∀ c t, r.sub c t = SM.cnt s c t) ∧ (∀ t, r.topic t = s.topics.has t) := by
+  intro s r
+  have h := SM.agree_run SM.Rep.empty (SM.init limit) ops (SM.agree_empty limit) (SM.inv_init limit)
+  exact ⟨h.conn, fun c t => by rw [SM.cnt_eq]; exact h.sub c t, h.topic⟩
+
+/-- The forced drop at the subscription limit: subscribing a *new* topic that would take the
+client to the limit removes the client with everything it held (and only that), answers false and
+ends the event batch with DropClient, ClientDisconnected; no TopicSubscribed is emitted. -/
+theorem C12_submgr_forced_drop (s : SM.St) (c t : Nat) (m : AMap Nat)
+    (hc : s.subs.get c = some m) (hm : m.get t = none) (hl : s.limit ≠ 0 ∧ s.limit ≤ m.length + 1) :
+    (SM.step s (.subscribe c t)).1 = SM.cleaned s c m ∧
+    (SM.step s (.subscribe c t)).2.ret = some false ∧
+    (SM.step s (.subscribe c t)).2.events = SM.cleanEvents c m s.topics ++ [.drop c, .disconnected c] := by
+  simp only [SM.step, hc, hm]
+  rw [if_pos hl, SM.cleanup_some s c m hc]
+  exact ⟨rfl, rfl, rfl⟩
+
+example : ∃ s : SM.St, ∃ c t m, s.subs.get c = some m ∧ m.get t = none ∧ (s.limit ≠ 0 ∧ s.limit ≤ m.length + 1) :=
+  ⟨(SM.run (SM.init 2) [.connect 2, .subscribe 2 5]).1, 2, 3, [(5, 1)], by decide, by decide, by decide⟩
+
+/-- Non-vacuity / regression: limit 2, client 1 holds topic 3; client 2 is dropped when it asks for
+a second topic — client 1's topic keeps its count. -/
+example : (SM.run (SM.init 2) [.connect 1, .subscribe 1 3, .connect 2, .subscribe 2 5, .subscribe 2 3,
+    .hasTopic 3, .clientSub 1 3, .subscribe 2 3, .sizes]).2.map (·.ret) =
+    [none, some true, none, some true, some false, some true, some true, some false, none] := by
+  decide
+
+/-- Witness about the model of the **unrepaired** limit path (the new topic is stored before the
+limit check and cleaned up with the rest): after the same history client 1 still holds topic 3 but
+the global count of topic 3 is gone. -/
+theorem C12_submgr_old_limit_path_witness :
+    let s0 := (SM.run (SM.init 2) [.connect 1, .subscribe 1 3, .connect 2, .subscribe 2 5]).1
+    let s := (SM.subscribeOld s0 2 3).1
+    SM.cnt s 1 3 = 1 ∧ SM.topicCount s 3 = 0 := by
+  decide
+
+end Hive.C12b
